@@ -6,15 +6,15 @@ ids = [json.loads(l)["id"] for l in open(os.path.join(ROOT, "properties.jsonl"))
 
 CHECKS = {
  "C01": dict(
-  technique="source-level symbolic execution of the nom grammar (syn dump -> PEG with nom semantics -> QF_BV) + SMT (z3), one query per exact input length; counterexamples replayed on the real build",
+  technique="source-level symbolic execution of the nom grammar (syn dump -> PEG with nom semantics -> QF_BV) + SMT (z3), one query per exact input length; S-kernel execution of Context::entity; counterexamples replayed on the real build",
   category="model_checking",
-  text="For every string of <= N Unicode scalar values (N=14 quick / 17 thorough) and every instantiation of the template families (DTD declarations, XML declaration, attributes, PI/comment/CDATA) z3 decides: the strict reference language (XML 1.0 5e + QName syntax, supported profile) is contained in {x : xml_parser::document consumes x and the info-level reference checks pass}. The keyword captures of the grammar (12 keyword -> variant sites, standalone = 'yes', decimal / hexadecimal radix of character references) are compared with the productions. The encoding is regenerated from /repo on each run; any model is replayed through XmlDocument::from_raw before it is reported.",
-  note="Bounded: nothing is claimed for longer documents outside the templates. Grammar layer only: item construction (XmlDocument::new beyond reference checks), entity expansion, DOM views and the captures->infoset mapping are outside. Trusted: nom combinator models (validated against the real parser on the corpus + random mutations on every run), reference grammar (self-tested on its corpus, expat second opinion on ASCII witnesses).",
+  text="For every string of <= N Unicode scalar values (N=14 quick / 17 thorough) and every instantiation of the template families (DTD declarations, XML declaration, attributes, PI/comment/CDATA) z3 decides: the strict reference language (XML 1.0 5e + QName syntax, supported profile) is contained in {x : xml_parser::document consumes x and the info-level reference checks pass}. The keyword captures of the grammar (12 keyword -> variant sites, standalone = 'yes', decimal / hexadecimal radix of character references) are compared with the productions. Which declaration a reference denotes: info Context::entity is executed by the S-kernel over <= 3 (quick) / 4 (thorough) declarations with symbolic 1-2 character names and a symbolic queried name - the first declaration with that name, else the predefined entity with its replacement text, else an error. The encoding is regenerated from /repo on each run; any model is replayed through XmlDocument::from_raw before it is reported.",
+  note="Bounded: nothing is claimed for longer documents outside the templates. Grammar layer plus the info-level reference checks (character references, entity names incl. the scope of ATTLIST defaults, read structurally from XmlDocumentTypeDeclaration::node) and Context::entity: the rest of item construction, entity expansion into text, DOM views and the captures->infoset mapping are outside. Trusted: nom combinator models (validated against the real parser on the corpus + random mutations on every run), reference grammar (self-tested on its corpus, expat second opinion on ASCII witnesses).",
   design="3/C01"),
  "C02": dict(
   technique="source-level symbolic execution of the nom grammar + info reject rules (syn dump -> QF_BV) + SMT (z3), one query per exact input length; known-finding classes as reference relaxations; counterexamples replayed on the real build",
   category="model_checking",
-  text="For every string of <= N scalar values (N=14/17) and every template instantiation z3 decides: document(x) consumes all of x and info accepts => x is in the lenient reference language (tag match, unique attributes, legal names/chars/char refs, no '<'/'&' in values, comment/CDATA/PI syntax, declared entities, one root, XMLDecl first, reserved PI target). Listed known-finding classes are excluded by switching the corresponding reference constraint off and are re-witnessed and replayed on every run.",
+  text="For every string of <= N scalar values (N=14/17) and every template instantiation z3 decides: document(x) consumes all of x and info accepts => x is in the lenient reference language (tag match, unique attributes - the real unique_att_spec is executed by the S-kernel inside the grammar's verify(many0(..)) -, legal names/chars/char refs, no '<'/'&' in values, comment/CDATA/PI syntax, declared entities, one root, XMLDecl first, reserved PI target). Listed known-finding classes are excluded by switching the corresponding reference constraint off and are re-witnessed and replayed on every run.",
   note="Bounded as C01. The xq/xe callers' rest-is-empty test is not part of this check. Trusted base as C01.",
   design="3/C02"),
 
@@ -31,10 +31,10 @@ CHECKS = {
   note="Partial: whole documents, element nesting, PartialEq on items, the DOM delegation and IndentedDisplay are outside; captures other than character references are only checked through acceptance. The ATTLIST printer (prints nothing) is a listed known finding, re-witnessed through a real round trip each run.",
   design="4/C04", engine="S-kernel + S-grammar"),
  "C06": dict(
-  technique="SMT (z3 QF_BV) over the S-grammar encoding of xml_xpath::expr::parse and its work semantics; panic/reject arms of the evaluator read from source and mapped to grammar sites; witnesses replayed (query under catch_unwind, gdb hit counts)",
+  technique="SMT (z3 QF_BV) over the S-grammar encoding of xml_xpath::expr::parse and its work semantics; panic/reject arms of the evaluator read from source and mapped to grammar sites; S-kernel execution of the step / sibling-navigation functions over a bounded item graph with symbolic ids; witnesses replayed (query under catch_unwind, gdb hit counts, DOM sibling calls)",
   category="model_checking",
-  text="For every expression string of <= N scalar values (N=6 quick / 8 thorough) and 3/4-character holes inside nested parentheses, function calls and predicates, z3 decides (a) no accepted expression selects an expr-model variant whose evaluator arm is unimplemented!/todo!/panic!, (b) variants whose arm returns Err do not panic on the real code, (c) no production is entered more than 8 times at one position (no exponential re-parsing of parenthesised / nested expressions).",
-  note="Partial: evaluation over a live document (parent of root/attribute, id(), sibling navigation) and the scalar functions' panic freedom are outside this check. Bounded lengths are small because every unsat verdict on the 12-level XPath grammar is expensive.",
+  text="For every expression string of <= N scalar values (N=6 quick / 8 thorough) and 3/4-character holes inside nested parentheses, function calls and predicates, z3 decides (a) no accepted expression selects an expr-model variant whose evaluator arm is unimplemented!/todo!/panic!, (b) variants whose arm returns Err do not panic on the real code, (c) no production is entered more than 8 times at one position (no exponential re-parsing of parenthesised / nested expressions). Two S-kernel obligations cover the navigation sites the property names: eval_step_expr and the axis dispatch of eval_axis_node_test are executed for every reachable context-node kind x ('.', '..', the 13 axes) with the real per-type parent_node bodies - no path panics (the parent of the document, of an attribute or of a namespace node selects nothing); XmlNode::next_sibling_child / previous_sibling_child are executed with the real XmlNode::order / HasContext::order / DocumentOrder::get on parents of every navigable kind whose children (every kind up to 2/3 children, one more over Element/PI/EntityReference) carry symbolic pairwise-distinct ids: the result is exactly the neighbour in the child list, so every sibling walk ends after at most k steps. The arity table of func.rs is compared with XPath 1.0 section 4.",
+  note="Partial: evaluation over a whole live document, id() and the scalar functions' panic freedom (C09) are outside this check; info-level parent()/parent_item() and the axis functions' own traversal are stubs in the step obligation. Bounded lengths are small because every unsat verdict on the 12-level XPath grammar is expensive.",
   design="3/C06"),
  "C08": dict(
   technique="SMT (z3 QF_BV) over the S-grammar encoding of xml_xpath::expr::parse against a scannerless XPath 1.0 reference recognizer, one query per exact length plus keyword templates; operator sites checked structurally with solver reachability; eval_predicate executed by the S-kernel (z3 FP); counterexamples replayed",
@@ -69,8 +69,8 @@ CHECKS = {
  "C16": dict(
   technique="source-level symbolic execution (S-kernel: path-by-path interpreter over the syn dump with modelled std) of the real dom/info character-data functions + SMT (z3 BV64) per path; both overflow configurations; counterexamples replayed on debug and release builds",
   category="model_checking",
-  text="length, substring_data, insert_data, delete_data, replace_data, append_data, set_data and split_text (bounds check + info split_at) of Text, Comment and CDATASection are executed symbolically down to insert_char_at / delete_char_range and the nom productions behind the check closures, for content of exactly n <= 3 (quick) / 4 (thorough) scalar values over all of Unicode, offset and count ANY 64-bit value, argument <= 1/2 characters, with overflow panicking (debug) and wrapping (release). For every path z3 decides the DOM Level 1 post-condition (IndexSizeErr iff offset > length, count clipped, exact resulting data, character granularity) and that no path panics.",
-  note="Outside: the sibling insertion of split_text and XmlExpandedText (item graph), contents longer than the bound, refusal of arguments (C15). Trusted: the std models in engine/sx/kstd.py and UTF-8 encoding of String; every counterexample is replayed through the public DOM API (factories + operation) before it is reported.",
+  text="length, substring_data, insert_data, delete_data, replace_data, append_data, set_data and split_text (bounds check + info split_at) of Text, Comment and CDATASection are executed symbolically down to insert_char_at / delete_char_range and the nom productions behind the check closures, for content of exactly n <= 3 (quick) / 4 (thorough) scalar values over all of Unicode, offset and count ANY 64-bit value, argument <= 1/2 characters, with overflow panicking (debug) and wrapping (release). For every path z3 decides the DOM Level 1 post-condition (IndexSizeErr iff offset > length, count clipped, exact resulting data, character granularity) and that no path panics. length and substring_data are also decided on the merged-text view (XmlExpandedText). split_text's sibling insertion is executed on an element with <= 3/4 children of every kind and symbolic ids through the real insert_after / insert_before / set_order_before / insert_by_id chain: the returned node is the split node's next sibling, every other child keeps its place, the two data concatenate to the original and order() increases along the new child list.",
+  note="Outside: split_text under an attribute parent, contents longer than the bound, refusal of arguments (C15). Trusted: the std models in engine/sx/kstd.py and UTF-8 encoding of String; every counterexample is replayed through the public DOM API (factories + operation) before it is reported.",
   design="4/C16", engine="S-kernel"),
  "C18": dict(
   technique="SMT (z3 QF_BV) over char predicates and name productions read from source, every scalar value / every string <= N; Kani/CBMC on the compiled classifiers over the whole char domain; counterexamples replayed",
@@ -93,9 +93,9 @@ CHECKS = {
 }
 
 NA = {
- "C05": "needs xml_xpath::query to run on a live document: the evaluator walks the Rc<RefCell<..>> item graph behind a HashMap id table, which neither engine can encode (Kani could not build a two-element document in 25 min; the S-kernel has no heap-graph model). The scalar half of the evaluator is decided under C09, the expression grammar under C08.",
+ "C05": "needs xml_xpath::query to run on a live document: the evaluator walks the Rc<RefCell<..>> item graph behind a HashMap id table, which neither engine can encode for arbitrary documents (Kani could not build a two-element document in 25 min; the S-kernel holds one parent with its children, not trees of arbitrary depth). The scalar half of the evaluator is decided under C09, the expression grammar under C08, node-set order / de-duplication under C07, steps that select nothing and sibling navigation under C06.",
  "C10": "namespace scoping (in_scope_namespace, find_nameapce_uri, as_expanded_name) recurses over parent links of the item graph; only the grammar's recognition of xmlns / xmlns:p attribute names is within reach and is decided inside C01/C02.",
- "C12": "the state is the heap graph itself (child vectors, parent_id, id_map of Rc/Weak items); no symbolic pre-state of it can be built in either engine, and bounded histories from a concrete state would be enumeration, not a solver verdict.",
+ "C12": "the state is the whole heap graph (child vectors, parent_id, id_map of Rc/Weak items at every depth) under arbitrary mutator histories; the S-kernel can hold one parent with its children (used for split_text under C16 and sibling navigation under C06) but no invariant over trees of arbitrary depth, and bounded histories from a concrete state would be enumeration, not a solver verdict.",
  "C13": "same state as C12 for every tree mutator. The character-data mutators' semantics are decided under C16, their validation under C15; the panicking factories are a known finding of C15.",
  "C17": "whole-program runs of the xe/xq binaries over process I/O, composing parser, evaluator, DOM mutation and printer: outside bounded symbolic execution of the code by either engine.",
 }
